@@ -129,9 +129,13 @@ def ddsmt_main():
 
         # parse the input
         start_time = time.time()
-        with open(options.args().infile, 'r') as infile:
-            exprs = list(nodeio.parse_smtlib(infile.read()))
-            nexprs = nodes.count_exprs(exprs)
+        try:
+            with open(options.args().infile, 'r') as infile:
+                exprs = list(nodeio.parse_smtlib(infile.read()))
+        except UnicodeDecodeError as e:
+            raise DDSMTException(
+                'input file is not valid UTF-8: {}'.format(e))
+        nexprs = nodes.count_exprs(exprs)
 
         logging.debug("parsed {} s-expressions in {:.2f} seconds".format(
             nexprs,
